@@ -652,6 +652,56 @@ def check_fusion_values(idx: Index, rep: Report) -> None:
         raise AnalysisError(f"only {n_eval} constant-folding / fusion replacements evaluated in {CANON}")
 
 
+def check_zero_immediate(idx: Index, rep: Report) -> None:
+    """The shift-by-zero canonicalization (`op x, 0 -> mv x`) is attached to the whole shift-immediate format.  It is
+    sound only for operations whose result with immediate 0 is rs1: shifts and rotates, not the single-bit
+    instructions (bclri / bexti / binvi / bseti) that share the format.  The shape of each py_operation says which is
+    which; an operation that is not the identity at 0 must be excluded from the pattern."""
+    r = rep.rule("C22.R8", "shift-by-zero canonicalization reaches only shift-immediate operations whose value at immediate 0 is rs1 (shifts, rotates); single-bit instructions are excluded", floor=8)
+    pat = idx.func(CANON, "ShiftbyZero.match_and_rewrite")
+    ptxt = unparse(pat.node)
+    gate = re.search(r"op\.(\w+)", " ".join(unparse(t_) for n_ in walk_local(pat.node) if isinstance(n_, ast.If) for t_ in [n_.test]))
+    gates = {m_ for n_ in walk_local(pat.node) if isinstance(n_, ast.If) for m_ in re.findall(r"\bop\.([A-Z_][A-Z_0-9]*)\b", unparse(n_.test))}
+    n = 0
+    for rel in ("xdsl/dialects/rv32.py", "xdsl/dialects/rv64.py"):
+        mi = idx.module(rel)
+        for c in mi.classes.values():
+            if "name" not in c.class_assigns() or not any(k.name == "RdRsImmShiftOperation" for k in idx.mro(c)):
+                continue
+            # does the class keep the canonicalization trait of the format (no own `traits = ...`)?
+            own_traits = c.class_assigns().get("traits")
+            if own_traits is not None and "CanonicalizationPatterns" not in unparse(own_traits):
+                continue
+            m = c.method("py_operation")
+            if m is None:
+                continue
+            n += 1
+            rets = [x for x in walk_local(m.node) if isinstance(x, ast.Return) and x.value is not None]
+            cfg = CFG(m.node)
+            txt = resolved_text(cfg, rets[-1].value, cfg.node_of(rets[-1])) if rets else ""
+            imm = "self.immediate.value.data"
+            if re.search(rf"1 << {re.escape(imm)}", txt):
+                kind = "single-bit"
+            elif re.search(rf"(>>|<<) {re.escape(imm)}\b.*\| .*(<<|>>) \(?\d+ - {re.escape(imm)}\)?", txt):
+                kind = "rotate"
+            elif re.search(rf"(>>|<<) {re.escape(imm)}\b", txt) and not re.search(rf"{re.escape(imm)}.*{re.escape(imm)}", txt):
+                kind = "shift"
+            else:
+                raise AnalysisError(f"{m.fq}: shape of `{txt[:80]}` not understood (shift / rotate / single-bit)")
+            inst = f"{c.fq}:{kind}"
+            if kind in ("shift", "rotate"):
+                r.ok(inst, f"{m.loc} {c.name}: {kind}, identity at immediate 0")
+                continue
+            # excluded by a class constant that the pattern tests?
+            excluded = any(unparse(c.class_assigns().get(g_)) == "False" for g_ in gates if c.class_assigns().get(g_) is not None)
+            if excluded:
+                r.ok(inst, f"{m.loc} {c.name}: single-bit instruction, excluded from the pattern by {sorted(gates)}")
+            else:
+                r.fail(inst, Finding("C22.R8", c.fq, f"zero-immediate-not-identity:{c.name}", f"{c.name} (`{txt[:60]}`) shares the shift-immediate format and therefore the ShiftbyZero canonicalization, but with immediate 0 it computes rs1 {'|' if '|' in txt else '&' if '&' in txt else '^'} ... bit 0, not rs1: `{c.class_assigns()['name'].value if isinstance(c.class_assigns()['name'], ast.Constant) else c.name} %x, 0` is rewritten to `mv %x` and canonicalization changes the result", c.loc))
+    if n < 8:
+        raise AnalysisError(f"only {n} shift-immediate operations with py_operation found")
+
+
 def check(idx: Index, rep: Report, tier: str) -> str:
     rep.run(check_tables, idx, rep)
     rep.run(check_cmp, idx, rep)
@@ -660,6 +710,7 @@ def check(idx: Index, rep: Report, tier: str) -> str:
     rep.run(check_prologue, idx, rep)
     rep.run(check_identities, idx, rep)
     rep.run(check_fusion_values, idx, rep)
+    rep.run(check_zero_immediate, idx, rep)
     return (
         "Reference-table agreement of the table-driven arith->riscv lowerings; exact abstract evaluation of the cmpi / cmpf "
         "instruction templates over the finite outcome spaces (signed x unsigned order; lt/eq/gt/unordered) against arith's "
